@@ -467,3 +467,65 @@ pub fn c20_store_helper_roundtrip(w: &World, blocks: &[Block], rep: &mut Report)
     let _ = std::fs::remove_dir_all(&path);
     checked
 }
+
+/// A real mempool stack alone (tx receiver -> BatchMaker -> ReliableSender -> QuorumWaiter ->
+/// Processor -> store / digest channel; mempool receiver -> Helper / Processor; Synchronizer).
+pub struct MempoolNode {
+    pub rt: Rt,
+    pub idx: usize,
+    pub outs: Vec<Endpoint>,
+    pub inbound: HashMap<u16, Endpoint>,
+    pub rx_digest: Receiver<Digest>,
+    pub tx_cmd: Sender<ConsensusMempoolMessage>,
+    pub mem: MemMap,
+    pub store: Store,
+}
+
+impl MempoolNode {
+    pub fn boot(world: &World, idx: usize, params: mempool::Parameters) -> Self {
+        let rt = Rt::new();
+        let name = world.name(idx);
+        let committee = world.mempool_committee();
+        let (store, mem, rx_digest, tx_cmd) = rt.block_on(async {
+            let (store, mem) = mem_store();
+            let (tx_c2m, rx_c2m) = channel(10_000);
+            let (tx_m2c, rx_m2c) = channel(10_000);
+            Mempool::spawn(name, committee, params, store.clone(), rx_c2m, tx_m2c);
+            (store, mem, rx_m2c, tx_c2m)
+        });
+        let node = Self { rt, idx, outs: Vec::new(), inbound: HashMap::new(), rx_digest, tx_cmd, mem, store };
+        node.rt.quiesce();
+        node
+    }
+
+    pub fn deliver(&mut self, port: u16, bytes: &[u8]) {
+        simnet::enter(self.rt.ns);
+        let need_dial = match self.inbound.get(&port) {
+            Some(ep) => ep.closed_by_node(),
+            None => true,
+        };
+        if need_dial {
+            match simnet::dial(port) {
+                Some(ep) => {
+                    self.inbound.insert(port, ep);
+                }
+                None => machinery_error(&format!("mempool {} does not listen on port {}", self.idx, port)),
+            }
+        }
+        self.inbound[&port].write_frame(bytes);
+    }
+
+    /// New connections opened by the node since the last call are appended to `outs`.
+    pub fn poll_conns(&mut self) {
+        simnet::enter(self.rt.ns);
+        self.outs.extend(simnet::take_outbound());
+    }
+
+    pub fn digests(&mut self) -> Vec<Digest> {
+        let mut v = Vec::new();
+        while let Ok(d) = self.rx_digest.try_recv() {
+            v.push(d);
+        }
+        v
+    }
+}
